@@ -281,3 +281,44 @@ func runD(c *kit.Ctx, r *kit.Rand, idx int) {
 	c.Count(fmt.Sprintf("D:new-nodeclaims:%d", lo.Min([]int{results.ncs, 4})))
 	c.AddCase(fmt.Sprintf("CaseF %s %s %s %s", kit.GStrs(pre), gKVs(budgets), gKVs(w.tbudget), kit.GList(grecs)), sc, key)
 }
+
+// reproSharedMigratingClaim confirms finding "shared claim of two migrating pods is allocated twice" on the real
+// scheduler: two pods that are being moved off a deleting node share one ResourceClaim that is allocated in-cluster and
+// reserved only by them. Run with VERIF_C17_REPRO=1.
+func reproSharedMigratingClaim() {
+	ctx := options.ToContext(context.Background(), test.Options(test.OptionsFields{IgnoreDRARequests: lo.ToPtr(false)}))
+	clk := clock.NewFakeClock(time.Unix(1_700_000_000, 0))
+	cl := kit.NewClient(interceptor.Funcs{})
+	cp := fake.NewCloudProvider()
+	kit.Apply(ctx, cl, test.DeviceClassWithSelector("excl", exclDriver), test.ClusterWideSlice("excl-pool", exclDriver, "e0", "e1"))
+	cp.InstanceTypes = []*cloudprovider.InstanceType{fake.NewInstanceType("plain")}
+	np := test.NodePool(v1.NodePool{ObjectMeta: metav1.ObjectMeta{Name: "pool"}})
+	np.Spec.Limits = nil
+	kit.Apply(ctx, cl, np)
+	var pods []*corev1.Pod
+	for i := 0; i < 2; i++ {
+		p := test.UnschedulablePod(test.PodOptions{ObjectMeta: metav1.ObjectMeta{Name: fmt.Sprintf("p%d", i), Namespace: "default", UID: types.UID(fmt.Sprintf("uid-p%d", i))},
+			ResourceClaims: []corev1.PodResourceClaim{{Name: "dev", ResourceClaimName: lo.ToPtr("shared")}}})
+		kit.Apply(ctx, cl, p)
+		pods = append(pods, p)
+	}
+	claim := test.AllocatedClusterWideClaim("shared", "excl-pool", exclDriver, "e0", test.PodConsumer(pods[0]), test.PodConsumer(pods[1]))
+	claim.Spec.Devices.Requests = []resourcev1.DeviceRequest{test.ExactDeviceRequest("req", "excl", 1)}
+	kit.Apply(ctx, cl, claim)
+	devCtl := deviceallocation.NewController(cl)
+	devCtl.Hydrate(ctx)
+	cluster := state.NewCluster(clk, cl, cp)
+	prov := provisioning.NewProvisioner(cl, events.NewRecorder(&record.FakeRecorder{}), cp, cluster, clk, devCtl, virtualpods.NewVirtualPodCache(cl))
+	s, err := prov.NewScheduler(ctx, pods, nil, sets.New[types.UID]("uid-p0", "uid-p1"))
+	if err != nil {
+		panic(err)
+	}
+	p, msg := kit.Recover(func() {
+		res, err := s.Solve(ctx, pods)
+		fmt.Println("Solve returned:", err, "new nodeclaims:", len(res.NewNodeClaims), "pod errors:", len(res.PodErrors))
+		for k, m := range res.DRAClaimAllocationMetadata {
+			fmt.Println(" claim", k, "devices", m.Devices)
+		}
+	})
+	fmt.Println("panicked:", p, msg)
+}
